@@ -8,8 +8,8 @@ from . import c01, campaign, engine, fmt, gen, segs, stages
 
 LEVEL = 'proof'
 PID = 'C13'
-WEIGHTS = {'rect': 0.25, 'oct': 0.3, 'share': 0.2, 'lat': 0.1, 'gp': 0.1, 'degen': 0.05, 'boxes': 0.05, 'straddle': 0.08, 'fan': 0.03, 'tjo': 0.2, 'abut': 0.06, 'punch': 0.05}
-EXACT = ('rect', 'oct', 'share', 'tjo', 'abut', 'punch', 'boxes')
+WEIGHTS = {'rect': 0.25, 'oct': 0.3, 'share': 0.2, 'lat': 0.1, 'gp': 0.1, 'degen': 0.05, 'boxes': 0.05, 'straddle': 0.08, 'fan': 0.03, 'tjo': 0.2, 'abut': 0.06, 'punch': 0.05, 'vtj': 0.08}
+EXACT = ('rect', 'oct', 'share', 'tjo', 'abut', 'punch', 'boxes', 'vtj')
 
 
 def input_edges(o):
